@@ -57,6 +57,10 @@ class DirectCollocation(SamplingMethod):
         self.degree = degree
         self.tau = collocation_points(degree, scheme)
         [self.C, self.D, self.B] = collocation_coeff(self.tau)
+        if abs(float(np.sum(np.array(self.B)))-1)>1e-12:
+            # collocation_coeff drops the weight of the extra node 0, which does not vanish for a single Radau point:
+            # use the quadrature weights on the collocation points alone (exact for polynomials up to degree-1)
+            self.B = DM(np.linalg.solve(np.vander(self.tau, increasing=True).T, 1.0/np.arange(1, degree+1)))
         self.clean()
 
     def clean(self):
